@@ -143,20 +143,7 @@ Definition check_db (c : dbcase) : verdict :=
       (* F13: the reads are those of a prefix of the entries, but of no prefix of the batches (a WAL
          flush inside a request, or a WAL write torn inside a request's records) *)
       if o_opened o && negb second_bad && prefix_consistent_b (entry_batches (c_steps c)) keys rd &&
-         (negb (no_split (c_steps c)) || torn) then 1
-      (* GC removed a value-log file before the WAL records superseding its entries were durable
-         (SyncWrites off): the model reproduces the reads, the deletion of a value-log file was logged (or the file
-         removed) before the crash point, and apart from unreadable keys the reads are those of a prefix of the batches *)
-      else if o_opened o && negb (c_sync c) && negb m_reads &&
-              existsb (fun e => match e with
-                                | VR _ _ => true
-                                | MF es => existsb (fun m => match m with VD _ _ => true | _ => false end) es
-                                | _ => false
-                                end) (firstn n (c_effs c)) &&
-              existsb (fun k => obsv_eqb (rd k) OU) keys &&
-              existsb (fun j => forallb (fun k => obsv_eqb (rd k) OU || obsv_eqb (rd k) (spec_get (firstn j bs) k)) keys)
-                      (seq 0 (S (length bs)))
-      then 2 else 0
+         (negb (no_split (c_steps c)) || torn) then 1 else 0
     else 0 in
   mk_verdict (m_effs || m_reads || m_ack || m_maint) viol known.
 
